@@ -921,3 +921,41 @@ package raft
 //@   ensures  rejected_change_has_no_effect: r.configurations.latestIndex == old(r.configurations.latestIndex) ==> r.configurations.latest == old(r.configurations.latest)
 //@   ensures  committed_untouched: r.configurations.committedIndex == old(r.configurations.committedIndex) && r.configurations.committed == old(r.configurations.committed)
 //@   ensures  appended_at_tail: r.configurations.latestIndex != old(r.configurations.latestIndex) ==> r.configurations.latestIndex == old(lastEntryIndex(r)) + 1
+
+// ---------------------------------------------------------------------------
+// C04 / C01: the leader's request builder (what wfAppend assumes on the receiving side is proved here)
+
+//@ func (r *Raft) setPreviousLog
+//@   requires nonnil: r != nil && req != nil && r.logs != nil && r.logger != nil
+//@   requires next_positive: nextIndex >= 1
+//@   modifies req.PrevLogEntry, req.PrevLogTerm
+//@   ensures  first: result == nil && nextIndex == 1 ==> req.PrevLogEntry == 0 && req.PrevLogTerm == 0
+//@   ensures  snapshot_boundary: result == nil && nextIndex != 1 && nextIndex - 1 == r.lastSnapshotIndex ==>
+//@              req.PrevLogEntry == r.lastSnapshotIndex && req.PrevLogTerm == r.lastSnapshotTerm
+//@   ensures  from_log: result == nil && nextIndex != 1 && nextIndex - 1 != r.lastSnapshotIndex ==>
+//@              r.logs.has[nextIndex - 1] && req.PrevLogEntry == nextIndex - 1 && req.PrevLogTerm == r.logs.ent[nextIndex - 1].Term
+//@   ensures  prev_is_next_minus_one: result == nil ==> req.PrevLogEntry == nextIndex - 1
+
+//@ func (r *Raft) setNewLogs
+//@   requires nonnil: r != nil && req != nil && r.logs != nil && r.logger != nil && typeis(r.conf.v, Config)
+//@   requires range: nextIndex >= 1 && lastIndex < MaxInt63 && nextIndex < MaxInt63 && cfg(r).MaxAppendEntries >= 1 && cfg(r).MaxAppendEntries < 1000000
+//@   modifies req.Entries
+//@   ensures  contiguous_from_next: result == nil ==> forall k int :: 0 <= k && k < len(req.Entries) ==>
+//@              req.Entries[k] != nil && req.Entries[k].Index == nextIndex + k &&
+//@              r.logs.has[nextIndex + k] && req.Entries[k].Term == r.logs.ent[nextIndex + k].Term
+//@   ensures  up_to_last: result == nil ==> forall k int :: 0 <= k && k < len(req.Entries) ==> nextIndex + k <= lastIndex
+//@   ensures  batch_bound: result == nil ==> len(req.Entries) <= cfg(r).MaxAppendEntries
+//@   ensures  fresh_entries: result == nil ==> isfresh(req.Entries) || len(req.Entries) == 0
+//@   loop 1 invariant built: len(req.Entries) == i - nextIndex && i >= nextIndex && isfresh(req.Entries) &&
+//@              (forall k int :: 0 <= k && k < len(req.Entries) ==> req.Entries[k] != nil && isfresh(req.Entries[k]) && req.Entries[k].Index == nextIndex + k && nextIndex + k <= maxIndex &&
+//@                  r.logs.has[nextIndex + k] && req.Entries[k].Term == r.logs.ent[nextIndex + k].Term)
+//@   loop 1 invariant store_untouched: r.logs.has == old(r.logs.has) && r.logs.ent == old(r.logs.ent) && r.logs == old(r.logs) && cap(req.Entries) >= 0
+
+//@ func (r *Raft) setupAppendEntries
+//@   requires nonnil: r != nil && s != nil && req != nil && r.logs != nil && r.logger != nil && r.trans != nil && typeis(r.conf.v, Config)
+//@   requires range: nextIndex >= 1 && lastIndex < MaxInt63 && nextIndex < MaxInt63 && cfg(r).MaxAppendEntries >= 1 && cfg(r).MaxAppendEntries < 1000000 && s.currentTerm < MaxInt63
+//@   ensures  stamped_with_election_term: result == nil ==> req.Term == s.currentTerm
+//@   ensures  commit_index_is_leaders: result == nil ==> req.LeaderCommitIndex == r.commitIndex
+//@   ensures  well_formed: result == nil ==> wfAppend(req)
+//@   ensures  prev_is_next_minus_one: result == nil ==> req.PrevLogEntry == nextIndex - 1
+//@   ensures  log_untouched: r.logs.has == old(r.logs.has) && r.logs.ent == old(r.logs.ent) && r.currentTerm == old(r.currentTerm)
